@@ -118,7 +118,7 @@ Qed.
 
 Definition gone (r : rphase) : bool := match r with RGone _ => true | _ => false end.
 Definition pre_final (r : rphase) : bool :=
-  match r with RStart | RInit | RLoop | RKill | RFin _ => true | _ => false end.
+  match r with RStart | RInit | RLoop | RKill | REscalate | RFin _ => true | _ => false end.
 Definition pre_spawn (s : spc) : bool :=
   match s with SNew | SWait | SStarting | SLaunch | SStartErr => true | _ => false end.
 Definition fresh_sub (s : spc) : bool :=
@@ -245,6 +245,15 @@ Proof.
       try (intros; discriminate); try (intro B; exfalso; apply Hnps; [discriminate|exact B]); try mono.
   - (* RKill *)
     specialize (Hp eq_refl).
+    destruct (choice =? 0); simpl.
+    + unfold W; simpl. destruct dir; simpl; constructor; simpl; auto; try discriminate; try lia;
+        try (intros; discriminate); try (intro B; exfalso; apply Hnps; [discriminate|exact B]); try mono.
+      wlog_tac. * simpl. rewrite rec_eqb_refl. simpl. now apply leb_of_le.
+      * apply allowed_to_final; [now apply stage_le1_not_succ|reflexivity].
+    + constructor; simpl; auto; try discriminate; try lia;
+        try (intros; discriminate); try (intro B; exfalso; apply Hnps; [discriminate|exact B]); try mono.
+  - (* REscalate *)
+    specialize (Hp eq_refl).
     unfold W; simpl. destruct dir; simpl; constructor; simpl; auto; try discriminate; try lia;
       try (intros; discriminate); try (intro B; exfalso; apply Hnps; [discriminate|exact B]); try mono.
     wlog_tac. * simpl. rewrite rec_eqb_refl. simpl. now apply leb_of_le.
@@ -273,7 +282,7 @@ Proof.
   destruct a; try contradiction; simpl.
   - destruct child; simpl; constructor; simpl; auto; lia.
   - destruct child; simpl; constructor; simpl; auto.
-  - destruct run as [| | | | | | |[|]]; simpl; try (constructor; simpl; auto; fail);
+  - destruct run as [| | | | | | | |[|]]; simpl; try (constructor; simpl; auto; fail);
     close Hnps.
   - destruct indexed; simpl; [|constructor; simpl; auto; fail].
     constructor; simpl; auto.
@@ -284,7 +293,7 @@ Lemma inv_waiter w : SInv w -> SInv (step false AWaiter w).
 Proof.
   intros [Hr Hn Hs Hp Hz Hc Hsub Hsp [Hl Hlast]].
   destruct w as [file pidset out sub run child sig wdone cancels restarted dload dir indexed log]; simpl in *.
-  destruct run as [| | | | | | |[|]]; simpl; try (constructor; simpl; auto; fail).
+  destruct run as [| | | | | | | |[|]]; simpl; try (constructor; simpl; auto; fail).
   destruct sub; simpl; try (constructor; simpl; auto; fail).
   destruct (restarted || wdone); simpl; try (constructor; simpl; auto; fail).
   unfold W; simpl. destruct dir; simpl; constructor; simpl; auto; try discriminate.
@@ -317,13 +326,13 @@ Proof.
     destruct pidset eqn:Hpid; simpl; constructor; simpl; auto; apply Forall_set_nth; auto.
     unfold canc_ok; simpl. intro E. destruct (Hn E) as (F & _). discriminate.
   - (* CSignal *)
-    destruct run as [| | | | | | |[|]]; simpl; try contradiction.
+    destruct run as [| | | | | | | |[|]]; simpl; try contradiction.
     all: try (close Hnps; apply Forall_set_nth; auto; try (unfold canc_ok; simpl; discriminate); try mono; fail).
   - (* CWait *)
-    destruct run as [| | | | | | |b]; simpl; try (constructor; simpl; auto; fail).
+    destruct run as [| | | | | | | |b]; simpl; try (constructor; simpl; auto; fail).
     close Hnps. apply Forall_set_nth; auto. reflexivity.
   - (* CWrite *)
-    destruct run as [| | | | | | |b]; simpl in Hci; try discriminate.
+    destruct run as [| | | | | | | |b]; simpl in Hci; try discriminate.
     unfold W; simpl. destruct dir; simpl; close Hnps; try (apply Forall_set_nth; auto).
     + now rewrite sz_wf_cancel.
     + wlog_tac. apply allowed_cancel.
@@ -426,8 +435,8 @@ Proof.
       try (destruct child; simpl; auto).
   - destruct child; simpl; auto.
   - destruct child; simpl; auto.
-  - destruct run as [| | | | | | |[|]]; simpl; auto.
-  - destruct run as [| | | | | | |[|]]; simpl; auto. destruct sub; simpl; auto.
+  - destruct run as [| | | | | | | |[|]]; simpl; auto.
+  - destruct run as [| | | | | | | |[|]]; simpl; auto. destruct sub; simpl; auto.
     destruct (restarted || wdone); simpl; auto. unfold W; simpl. destruct dir; simpl; auto.
   - destruct indexed; simpl; auto. apply Forall_app; split; auto. constructor; auto. exact I.
   - unfold step_cancel; simpl. destruct (nth_error cancels i) as [c|] eqn:Hi; simpl; auto.
@@ -437,7 +446,7 @@ Proof.
     { intros d x. unfold rel_ok, after_cancel; simpl. destruct (kind =? 0) eqn:E; simpl; auto. left. lia. }
     destruct pc; simpl; auto.
     + destruct pidset; simpl; apply Forall_set_nth; auto; exact I.
-    + destruct run as [| | | | | | |[|]]; simpl; apply Forall_set_nth; auto; exact I.
+    + destruct run as [| | | | | | | |[|]]; simpl; apply Forall_set_nth; auto; exact I.
     + destruct restarted; simpl; [apply Forall_set_nth; auto; exact I|].
       destruct run; simpl; auto; apply Forall_set_nth; auto; exact I.
     + unfold W; simpl. destruct dir; simpl; apply Forall_set_nth; auto.
@@ -478,14 +487,14 @@ Proof.
       try (destruct child; simpl; auto).
   - destruct child; simpl; auto.
   - destruct child; simpl; auto.
-  - destruct run as [| | | | | | |[|]]; simpl; auto.
-  - destruct run as [| | | | | | |[|]]; simpl; auto. destruct sub; simpl; auto.
+  - destruct run as [| | | | | | | |[|]]; simpl; auto.
+  - destruct run as [| | | | | | | |[|]]; simpl; auto. destruct sub; simpl; auto.
     destruct (restarted || wdone); simpl; auto. unfold W; simpl. destruct dir; simpl; auto.
   - destruct indexed; simpl; auto.
   - unfold step_cancel; simpl. destruct (nth_error cancels i) as [[kind pc]|]; simpl; auto.
     destruct pc; simpl; auto.
     + destruct pidset; simpl; auto.
-    + destruct run as [| | | | | | |[|]]; simpl; auto.
+    + destruct run as [| | | | | | | |[|]]; simpl; auto.
     + destruct restarted; simpl; auto. destruct run; simpl; auto.
     + unfold W; simpl. destruct dir; simpl; auto.
   - destruct (dir && indexed); simpl; auto.
@@ -509,14 +518,14 @@ Proof.
       try (destruct child; simpl; auto).
   - destruct child; simpl; auto.
   - destruct child; simpl; auto.
-  - destruct run as [| | | | | | |[|]]; simpl; auto.
-  - destruct run as [| | | | | | |[|]]; simpl; auto. destruct sub; simpl; auto.
+  - destruct run as [| | | | | | | |[|]]; simpl; auto.
+  - destruct run as [| | | | | | | |[|]]; simpl; auto. destruct sub; simpl; auto.
     destruct (restarted || wdone); simpl; auto.
   - destruct indexed; simpl; auto.
   - unfold step_cancel; simpl. destruct (nth_error cancels i) as [[kind pc]|]; simpl; auto.
     destruct pc; simpl; auto.
     + destruct pidset; simpl; auto.
-    + destruct run as [| | | | | | |[|]]; simpl; auto.
+    + destruct run as [| | | | | | | |[|]]; simpl; auto.
     + destruct restarted; simpl; auto. destruct run; simpl; auto.
   - destruct dload as [s|]; simpl; auto. destruct (s =? Pending); simpl; auto.
 Qed.
@@ -634,3 +643,120 @@ Theorem ids_without_disk_check_refuted :
   mem 7 (i_disk s1) = true /\ i_given s2 = [7] /\
   i_given (id_step true 3 cands (IAlloc false) (id_step true 3 cands (IAlloc true) (mkIds [] [] 0 []))) = [].
 Proof. vm_compute. auto. Qed.
+
+(* ---------- cancel stops the unit's process ---------- *)
+
+(* the command runs only while its runner is in the monitoring loop or terminating it *)
+Definition child_ok (w : world) : Prop :=
+  (w_child w = CRun -> w_run w = RLoop \/ w_run w = RKill \/ w_run w = REscalate) /\
+  (pre_spawn (w_sub w) = true -> w_run w = RNone).
+
+Ltac kfin H1 H2 :=
+  split;
+  [ first [ exact H1
+          | let E := fresh "E" in intro E;
+            first [ discriminate E
+                  | let A := fresh "A" in destruct (H1 E) as [A|[A|A]];
+                    first [ discriminate A | (rewrite A; auto) | auto ]
+                  | auto ] ]
+  | first [ exact H2 | let B := fresh "B" in intro B; first [ discriminate B | (specialize (H2 B); first [discriminate H2 | auto]) ] ] ].
+
+Lemma child_step p a w : child_ok w -> child_ok (step p a w).
+Proof.
+  unfold child_ok.
+  destruct w as [file pidset out sub run child sig wdone cancels restarted dload dir indexed log]; simpl.
+  intros (H1 & H2). destruct a; simpl.
+  - destruct sub; try destruct fail; simpl; unfold W; simpl; try destruct dir; simpl; try (split; assumption); try kfin H1 H2.
+    all: exfalso; specialize (H2 eq_refl); congruence.
+  - destruct run; simpl; try (split; assumption); unfold W; simpl;
+      repeat match goal with |- context [if ?b then _ else _] => destruct b; simpl end;
+      try (destruct child; simpl); try (split; assumption); kfin H1 H2.
+  - destruct child; simpl; split; assumption.
+  - destruct child; simpl; try (split; assumption). kfin H1 H2.
+  - destruct run as [| | | | | | | |[|]]; simpl; try (split; assumption). kfin H1 H2.
+  - destruct run as [| | | | | | | |[|]]; simpl; try (split; assumption). destruct sub; simpl; try (split; assumption).
+    destruct (restarted || wdone); simpl; try (split; assumption). unfold W; simpl. destruct dir; simpl; split; assumption.
+  - destruct indexed; simpl; split; assumption.
+  - unfold step_cancel; simpl. destruct (nth_error cancels i) as [[kind pc]|]; simpl; try (split; assumption).
+    destruct pc; simpl; try (split; assumption).
+    + destruct pidset; simpl; split; assumption.
+    + destruct run as [| | | | | | | |[|]]; simpl; try (split; assumption); kfin H1 H2.
+    + destruct restarted; simpl; try (split; assumption). destruct run; simpl; split; assumption.
+    + unfold W; simpl. destruct dir; simpl; split; assumption.
+  - destruct (dir && indexed); simpl; try (split; assumption). kfin H1 H2.
+  - destruct dload as [s|]; simpl; try (split; assumption). destruct (s =? Pending); simpl; try (split; assumption).
+    unfold W; simpl. destruct dir; simpl; split; assumption.
+Qed.
+
+Lemma child_run p sched : forall w, child_ok w -> child_ok (run p sched w).
+Proof.
+  unfold run. induction sched as [|a s IH]; intros w H; simpl; auto. apply IH. now apply child_step.
+Qed.
+
+Lemma gone_step_run p a w : child_ok w -> gone (w_run w) = true -> gone (w_run (step p a w)) = true.
+Proof.
+  unfold child_ok.
+  destruct w as [file pidset out sub run child sig wdone cancels restarted dload dir indexed log]; simpl.
+  intros (_ & H2).
+  destruct run as [| | | | | | | |b]; simpl; try discriminate. intros _.
+  destruct a; simpl; auto.
+  - destruct sub; try (specialize (H2 eq_refl); discriminate); try destruct fail; simpl; unfold W; simpl; destruct dir; simpl; auto.
+  - destruct child; simpl; auto.
+  - destruct child; simpl; auto.
+  - destruct b; simpl; auto.
+  - destruct b; simpl; auto. destruct sub; simpl; auto.
+    destruct (restarted || wdone); simpl; auto. unfold W; simpl. destruct dir; simpl; auto.
+  - destruct indexed; simpl; auto.
+  - unfold step_cancel; simpl. destruct (nth_error cancels i) as [[kind pc]|]; simpl; auto.
+    destruct pc; simpl; auto.
+    + destruct pidset; simpl; auto.
+    + destruct b; simpl; auto.
+    + destruct restarted; simpl; auto.
+    + unfold W; simpl. destruct dir; simpl; auto.
+  - destruct (dir && indexed); simpl; auto.
+  - destruct dload as [s|]; simpl; auto. destruct (s =? Pending); simpl; auto. unfold W; simpl. destruct dir; simpl; auto.
+Qed.
+
+Lemma gone_run p sched : forall w, child_ok w -> gone (w_run w) = true -> gone (w_run (run p sched w)) = true.
+Proof.
+  unfold run. induction sched as [|a s IH]; intros w Hk H; simpl; auto.
+  apply IH; [now apply child_step|now apply gone_step_run].
+Qed.
+
+(* whenever the runner process is gone, the unit's command is not running - every schedule,
+   restarts included: the runner never exits while its command lives (SIGINT, then SIGKILL) *)
+Theorem runner_gone_command_gone p sched :
+  gone (w_run (run p sched world0)) = true -> w_child (run p sched world0) <> CRun.
+Proof.
+  intros Hg E.
+  assert (H : child_ok (run p sched world0)) by (apply child_run; split; intro A; [discriminate|reflexivity]).
+  destruct H as (H & _). destruct (H E) as [A|[A|A]]; rewrite A in Hg; discriminate.
+Qed.
+
+(* Cancel (without daemon restart) records Canceled and answers only when the runner is gone, hence
+   the command too - and neither ever comes back *)
+Theorem cancel_stops_process sched i c : no_restart sched = true ->
+  nth_error (w_cancels (run false sched world0)) i = Some c -> k_pc c = CWrite ->
+  forall sched', let w' := run false sched' (run false sched world0) in
+  gone (w_run w') = true /\ w_child w' <> CRun.
+Proof.
+  intros Hn Hi Hpc sched' w'.
+  pose proof (i_canc _ (run_sinv sched world0 Hn sinv0)) as Hc.
+  rewrite Forall_forall in Hc. specialize (Hc c (nth_error_In _ _ Hi)).
+  unfold canc_ok in Hc. rewrite Hpc in Hc.
+  assert (Hg : gone (w_run w') = true).
+  { apply gone_run; [|exact Hc]. apply child_run. split; intro A; [discriminate|reflexivity]. }
+  split; auto.
+  unfold w', run in *. rewrite <- fold_left_app in *.
+  apply (runner_gone_command_gone false (sched ++ sched')). exact Hg.
+Qed.
+
+(* the command that ignores SIGINT: the runner escalates, and only then exits *)
+Example ignoring_command_is_killed :
+  let w := run false (submit5 ++ [ARunner 0; ARunner 0; ACancelNew 0; ACancel 0%nat; ACancel 0%nat;
+                                  ARunner 2; ARunner 1; ACancel 0%nat]) world0 in
+  w_run w = REscalate /\ w_child w = CRun /\
+  nth_error (w_cancels w) 0 = Some (mkCanc 0 CWait) /\
+  let w2 := run false [ARunner 0; ACancel 0%nat; ACancel 0%nat] w in
+  w_run w2 = RGone false /\ w_child w2 = CDone false /\ st (w_file w2) = Canceled.
+Proof. vm_compute. repeat split; reflexivity. Qed.
